@@ -16,6 +16,8 @@ Conformal2 == {"nonparametric", "gaussian"}
 VoteCounts == {"turnout", "dem", "gop"}
 TwoCounts == {"turnout", "dem"}
 Alphas3 == {"0.5", "0.7", "0.9"}
+\* two levels within the same percent, and a level that is not a "round" float (0.7 + 0.1 in binary floating point)
+Alphas5 == {"0.5", "0.7", "0.9", "0.909", "0.7999999999999999"}
 Alphas2 == {"0.7", "0.9"}
 Aggs5 == {"postal_code", "county_fips", "county_classification", "district", "unit"}
 Aggs4 == {"postal_code", "county_fips", "county_classification", "unit"}
